@@ -37,12 +37,25 @@ Ext == [name |-> "ext.xsd", kind |-> "xsd", tns |-> "Uext", xmlns |-> << <<"x", 
 Other == [name |-> "other.xsd", kind |-> "xsd", tns |-> "Uother", xmlns |-> <<>>,
           items |-> << [k |-> "complex", n |-> "UnrelatedType", base |-> None, content |-> Seq1(<< El("u", Str) >>), attrs |-> <<>>] >>]
 
-Docs == << [prop |-> "C12", drv |-> "c12", start |-> "svc.wsdl", files |-> <<Wsdl(NOps), Ext, Other>>, label |-> "wsdl-ops"],
+\* a type whose members live in several other namespaces (refs to global elements of four imported schemas)
+NsIds == <<"Una", "Unb", "Unc", "Und">>
+PartFile(i) == [name |-> "part" \o ToString(i) \o ".xsd", kind |-> "xsd", tns |-> NsIds[i], xmlns |-> <<>>,
+                items |-> << [k |-> "element", n |-> "Elem" \o ToString(i), inline |-> Inline(<< El("v", Str) >>)] >>]
+RefTo(i) == [k |-> "ref", ref |-> [p |-> "p" \o ToString(i), n |-> "Elem" \o ToString(i)], min |-> 0, max |-> "1"]
+MultiNs == [name |-> "multi.xsd", kind |-> "xsd", tns |-> "Usvc",
+            xmlns |-> << <<"p1", "Una">>, <<"p2", "Unb">>, <<"p3", "Unc">>, <<"p4", "Und">> >>,
+            items |-> [i \in 1..4 |-> [k |-> "import", ns |-> NsIds[i], loc |-> "part" \o ToString(i) \o ".xsd"]]
+                      \o << [k |-> "complex", n |-> "OrderType", base |-> None, content |-> Seq1(<< RefTo(1), RefTo(2), RefTo(3), RefTo(4), El("own", Str) >>), attrs |-> <<>>] >>]
+
+Docs == << [prop |-> "C12", drv |-> "c12", start |-> "multi.xsd", files |-> <<MultiNs, PartFile(1), PartFile(2), PartFile(3), PartFile(4)>>, label |-> "multi-namespace-members"],
+            [prop |-> "C12", drv |-> "c12", start |-> "svc.wsdl", files |-> <<Wsdl(NOps), Ext, Other>>, label |-> "wsdl-ops"],
            [prop |-> "C12", drv |-> "c12", start |-> "svc.wsdl", files |-> <<Wsdl(2), Ext, Other>>, label |-> "wsdl-2ops"],
            [prop |-> "C12", drv |-> "c12", start |-> "ext.xsd", files |-> <<Ext, Other>>, label |-> "xsd-only"] >>
 
 Vocab == [names |-> [x |-> [xml |-> "x"]],
-          uris |-> [Usvc |-> [uri |-> "http://zv.test/c12/service"], Uext |-> [uri |-> "http://zv.test/c12/ext"], Uother |-> [uri |-> "http://zv.test/c12/other"]],
+          uris |-> [Usvc |-> [uri |-> "http://zv.test/c12/service"], Uext |-> [uri |-> "http://zv.test/c12/ext"], Uother |-> [uri |-> "http://zv.test/c12/other"],
+                    Una |-> [uri |-> "http://zv.test/c12/alpha"], Unb |-> [uri |-> "http://zv.test/c12/bravo"],
+                    Unc |-> [uri |-> "http://zv.test/c12/charlie"], Und |-> [uri |-> "http://zv.test/c12/delta"]],
           texts |-> [addr |-> "http://127.0.0.1:9/svc", act |-> "http://zv.test/c12/service/action"]]
 ASSUME PrintT(<<"VOCAB", ToJson(Vocab)>>)
 ASSUME \A d \in 1..Len(Docs) : PrintT(<<"CASE", ToJson(Docs[d])>>)
